@@ -16,7 +16,7 @@ func (k *kernel) use(v *variable) {
 	if k.mode == mKernel && !k.inLoop && !k.inFinal && v.param && v.state {
 		k.preReadsStateParam = true // the value on entry of a parameter that the loop carries: not available inside step
 	}
-	if k.mode == mKernel && !v.inLoop && (!v.param || v.reassigned) && !v.state && (k.inLoop || k.inFinal) && k.liveIn != nil {
+	if k.mode == mKernel && !v.inLoop && !v.loopLocal && (!v.param || v.reassigned) && !v.state && (k.inLoop || k.inFinal) && k.liveIn != nil {
 		k.liveIn[v] = true
 	}
 	for c := k.clo; c != nil; c = c.outer {
@@ -64,6 +64,9 @@ func (k *kernel) typedSignature(r *funcRef) (ins, outs []string, ok bool) {
 		return nil, nil, false
 	}
 	outs = k.w.flatTypes(gouts)
+	for range k.w.writtenParams(r) { // the final values of the slice parameters the function writes into (inplace.go)
+		outs = append(outs, "List α")
+	}
 	return ins, outs, len(outs) > 0
 }
 
@@ -109,8 +112,8 @@ func (k *kernel) argOf(a ast.Expr, typ string) string {
 // `name a b c`, the Lean types of its results. A callee that may panic (result `Option …`) is accepted only where the
 // caller has said so (statement level: `x := f(…)`, `a, b = f(…)`, `return f(…)`).
 func (k *kernel) callTyped(e *ast.CallExpr) (string, []string, bool) {
-	allow := k.allowPartial
-	k.allowPartial = false
+	allow, allowW := k.allowPartial, k.allowWrites
+	k.allowPartial, k.allowWrites = false, false
 	if c := k.closureOf(e.Fun); c != nil {
 		if c.partial && !allow {
 			k.fail(e, "call of %s, which may panic, inside an expression", c.name)
@@ -136,6 +139,9 @@ func (k *kernel) callTyped(e *ast.CallExpr) (string, []string, bool) {
 	}
 	if _, _, ok := k.typedSignature(r); !ok {
 		return "", nil, false
+	}
+	if len(k.w.writtenParams(r)) > 0 && !allowW {
+		k.fail(e, "call of %s, which writes into a slice argument, inside an expression", r.fd.Name.Name)
 	}
 	h := k.helper(e, r)
 	goArgs := callArgs(e, r)
